@@ -242,6 +242,28 @@ def check(model, rep):
     rep.ob('R01.4', fi('NearZero'), 'abs(z) < 1e-6', nz == ('cmp', '<', ('call', 'abs', (('p', 0),), ()), num(1e-6)), 'cut-off is %s' % show(nz))
     rep.floor('R01.0', 'primitives compared with the reference', len([o for o in rep.obligations if o.rule == 'R01.0']), 19)
 
+    # ---------------------------------------------------------------- R01.5
+    # log(exp(x)) = x, exp(log(T)) = T, vee(hat(w)) = w ... are statements about the caller's x, T, w: the primitives must leave what they are
+    # given as it is (normal-form equality compares returned values only; a primitive that normalises its argument in place returns the
+    # right value once and changes what every later use of the same array computes)
+    rep.rule('R01.5', 'no rigid-motion primitive writes into an array it is given (effects summary: no store, augmented assignment or mutating call '
+                      'reaches a parameter, directly or through a callee / a view)')
+    from ..engine.effects import Effects
+    fx = Effects(model)
+    n_fx = 0
+    for name in sorted(C01_PRIMITIVES):
+        f_ = pm.funcs.get(name)
+        if f_ is None:
+            continue
+        n_fx += 1
+        summ = fx.summary(f_)
+        sites = [(p_, n_, how) for (p_, k_), lst in summ.writes.items() if k_ != 'meta' for (n_, how) in lst]
+        rep.ob('R01.5', f_, '%s leaves its arguments unwritten' % name, not sites,
+               ('%s writes its parameter `%s` (%s, line %d): the caller\'s matrix / vector is changed by the call, so the identities fail for every '
+                'later use of the same array (log(exp(X)) is no longer X, a second exp(X) gives another rotation)' % (name, sites[0][0], sites[0][2], sites[0][1].lineno))
+               if sites else 'no write reaches a parameter')
+    rep.floor('R01.5', 'primitives with an effects summary', n_fx, 19)
+
 
 def _diag_of(t):
     """t == 1 + R[k,k] -> k"""
